@@ -34,6 +34,7 @@ type mAct struct {
 	Img  string `json:"img"`
 	Name string `json:"name"`
 	Ow   bool   `json:"ow"`
+	Kg   bool   `json:"kg"`
 	Res  string `json:"res"`
 }
 type mEdge struct {
@@ -172,7 +173,17 @@ func project(head map[string][]byte, names, imgs []string) (man []mEntry, files 
 }
 
 // runEndorse performs one real endorse run on the given head.
-func runEndorse(head map[string][]byte, img []byte, candidate string, overwrite, snapshot bool) (*World, string, string) {
+// candidateOf: the abstract name "endorsement" stands for a run without --candidate_name (the
+// default file name endorsement.binarypb).
+func candidateOf(name string) string {
+	if name == "endorsement" {
+		return ""
+	}
+	return name
+}
+
+func runEndorse(head map[string][]byte, img []byte, candidate string, overwrite, snapshot, keepGoing bool) (*World, string, string) {
+	candidate = candidateOf(candidate)
 	w := &World{Root: root, OutDir: outDir, Head: copyMap(head), D: passDecider{}}
 	ca, signer, err := fx.DevAuthority()
 	if err != nil {
@@ -184,7 +195,7 @@ func runEndorse(head map[string][]byte, img []byte, candidate string, overwrite,
 		ectx.SnapshotDir = "snap"
 		ectx.ImageName = "fw.fd"
 	}
-	ctx := endorse.NewContext(fx.Ctx(kc, overwrite, false), ectx)
+	ctx := endorse.NewContext(fx.Ctx(kc, overwrite, keepGoing), ectx)
 	ret, msg := "ok", ""
 	func() {
 		defer func() {
@@ -276,7 +287,7 @@ func RunC13(run *vk.Run) {
 		run.Infra(fmt.Errorf("emitted %d transitions but TLC generated %d", len(em.Edges), em.Generated-1))
 		return
 	}
-	names := []string{"a", "b", "c", "d"}
+	names := []string{"a", "b", "c", "endorsement"}
 	imgs := []string{"i1", "i2", "i3", "i4"}
 	for _, id := range imgs {
 		if _, err := poolEndorsement(id); err != nil {
@@ -297,7 +308,7 @@ func RunC13(run *vk.Run) {
 			run.Infra(err)
 			return
 		}
-		w, ret, msg := runEndorse(from, poolImage(e.Act.Img), e.Act.Name, e.Act.Ow, e.Act.Op == "snapshot")
+		w, ret, msg := runEndorse(from, poolImage(e.Act.Img), e.Act.Name, e.Act.Ow, e.Act.Op == "snapshot", e.Act.Kg)
 		if ret == "infra" {
 			run.Infra(fmt.Errorf("%s", msg))
 			return
@@ -319,7 +330,7 @@ func RunC13(run *vk.Run) {
 			mu.Lock()
 			drift++
 			if drift <= 3 {
-				fmt.Printf("DRIFT property=C13 real successor differs from ManifestIndex: from=%v/%v act=%+v real=%v/%v (%s %s) spec=%v/%v\n", e.Man, e.Files, e.Act, man, files, ret, msg, e.Man2, e.Files2)
+				fmt.Fprintf(vk.Stdout, "DRIFT property=C13 real successor differs from ManifestIndex: from=%v/%v act=%+v real=%v/%v (%s %s) spec=%v/%v\n", e.Man, e.Files, e.Act, man, files, ret, msg, e.Man2, e.Files2)
 			}
 			mu.Unlock()
 		}
@@ -336,7 +347,7 @@ func RunC13(run *vk.Run) {
 	}
 	parallel(walks, func(wi int) {
 		r := rand.New(rand.NewSource(run.Seed*7919 + int64(wi)))
-		wnames := []string{"a", "b", "c", "d", "e", "f"}
+		wnames := []string{"a", "b", "c", "endorsement", "e", "f"}
 		wimgs := []string{"i1", "i2", "i3", "i4", "i5", "i6", "i7"}
 		head := map[string][]byte{}
 		useDisk := wi%2 == 1
@@ -347,7 +358,7 @@ func RunC13(run *vk.Run) {
 		}
 		var hist []mAct
 		for s := 0; s < steps; s++ {
-			act := mAct{Op: "endorse", Img: wimgs[r.Intn(len(wimgs))], Name: wnames[r.Intn(len(wnames))], Ow: r.Intn(2) == 0}
+			act := mAct{Op: "endorse", Img: wimgs[r.Intn(len(wimgs))], Name: wnames[r.Intn(len(wnames))], Ow: r.Intn(2) == 0, Kg: r.Intn(4) == 0}
 			if r.Intn(10) == 0 {
 				act.Op, act.Name = "snapshot", ""
 			}
@@ -355,9 +366,9 @@ func RunC13(run *vk.Run) {
 			var w *World
 			var ret, msg string
 			if useDisk {
-				w, ret, msg = runEndorseDisk(dir, poolImage(act.Img), act.Name, act.Ow, act.Op == "snapshot")
+				w, ret, msg = runEndorseDisk(dir, poolImage(act.Img), act.Name, act.Ow, act.Op == "snapshot", act.Kg)
 			} else {
-				w, ret, msg = runEndorse(head, poolImage(act.Img), act.Name, act.Ow, act.Op == "snapshot")
+				w, ret, msg = runEndorse(head, poolImage(act.Img), act.Name, act.Ow, act.Op == "snapshot", act.Kg)
 			}
 			if ret == "infra" {
 				run.Infra(fmt.Errorf("%s", msg))
@@ -376,7 +387,7 @@ func RunC13(run *vk.Run) {
 		}
 	})
 	run.Exhaustive = true
-	run.Rule = "every transition of the reachable closure of ManifestIndex.tla (pool of 3x3 quick / 4x4 thorough images x names x overwrite, plus snapshot runs) is materialised as a real version-control head, one real endorse.VirtualFirmware run is made and the C13 predicates are evaluated on the projected result; plus seeded random walks over a 7x6 pool on the in-memory backend and on localnonvcs with real files; non-trivial = source manifest non-empty"
+	run.Rule = "every transition of the reachable closure of ManifestIndex.tla (pool of 3x3 quick / 4x4 thorough images x names x overwrite x keep-going, plus snapshot runs) is materialised as a real version-control head, one real endorse.VirtualFirmware run is made and the C13 predicates are evaluated on the projected result; plus seeded random walks over a 7x6 pool on the in-memory backend and on localnonvcs with real files; non-trivial = source manifest non-empty"
 }
 
 func sameEntries(a, b []mEntry) bool {
@@ -388,7 +399,8 @@ func sameEntries(a, b []mEntry) bool {
 
 // runEndorseDisk runs endorse through testing/nonprod/localnonvcs on a real directory and returns a
 // World whose Head mirrors the directory afterwards (paths rebased to the in-memory root).
-func runEndorseDisk(dir string, img []byte, candidate string, overwrite, snapshot bool) (*World, string, string) {
+func runEndorseDisk(dir string, img []byte, candidate string, overwrite, snapshot, keepGoing bool) (*World, string, string) {
+	candidate = candidateOf(candidate)
 	ca, signer, err := fx.DevAuthority()
 	if err != nil {
 		return nil, "infra", err.Error()
@@ -399,7 +411,7 @@ func runEndorseDisk(dir string, img []byte, candidate string, overwrite, snapsho
 		ectx.SnapshotDir = "snap"
 		ectx.ImageName = "fw.fd"
 	}
-	ctx := endorse.NewContext(fx.Ctx(kc, overwrite, false), ectx)
+	ctx := endorse.NewContext(fx.Ctx(kc, overwrite, keepGoing), ectx)
 	ret, msg := "ok", ""
 	func() {
 		defer func() {
